@@ -9,6 +9,7 @@ import Driver.Errors
 import Driver.Partial
 import Driver.Eq
 import Driver.Serialize
+import Driver.Flags
 open Lean Driver
 
 def dispatch (req : Json) : R Json := do
@@ -19,6 +20,7 @@ def dispatch (req : Json) : R Json := do
   | "partial" => Driver.Partial.handle req
   | "eq" => Driver.Eq.handle req
   | "serialize" => Driver.Serialize.handle req
+  | "flags" => Driver.Flags.handle req
   | "guard" => Driver.Errors.handleGuard req
   | "decorate" => Driver.Errors.handleDecorate req
   | _ => throw "bad-op"
